@@ -752,13 +752,31 @@ def corr_asm(ctx, P):
     from tlslite.integration.asyncstatemachine import AsyncStateMachine
     rng = ctx.rng
 
+    class FakeSock(object):
+        def __init__(self, conn):
+            self.conn = conn
+
+        @property
+        def _read_buffer(self):
+            # "something was read ahead" while scripted extra reads remain
+            return b"x" if self.conn.pending else b""
+
     class FakeConn(object):
+        closed = False
+
         def __init__(self, script):
             self.script = script
+            self.pending = []          # what the extra reads of the read-ahead drain loop will do
+            self.sock = FakeSock(self)
+
+        def _next(self):
+            if self.script:
+                return self.script.pop(0)
+            return self.pending.pop(0)
 
         def _gen(self):
             while True:
-                g = self.script.pop(0)
+                g = self._next()
                 if g == "stop":
                     return
                 if g == "raise":
@@ -856,6 +874,10 @@ def corr_asm(ctx, P):
             if rng.random() < 0.35:
                 nest = (rng.choice(["setWrite", "setWrite", "setClose", "setHandshake"]), rng.choice([0, 1, 1, 5, "stop", "raise"]))
             m.reenter = nest
+            pend = []
+            if op == "inRead" and nest is None and rng.random() < 0.4:
+                pend = [rng.choice([5, 5, 6, 0, 1, "stop", "raise"]) for _ in range(rng.randrange(1, 4))]
+            m.tlsConnection.pending = list(pend)
             prev_active = any((m.handshaker, m.closer, m.reader, m.writer))
             try:
                 if op == "inRead":
@@ -880,7 +902,12 @@ def corr_asm(ctx, P):
                     ctx.violation("c14:asm-callback-entered-with-active-op",
                                   "AsyncStateMachine.%s with generator step %s: a callback ran while the machine was in state %s"
                                   % (op, gs, cs), dict(case, at=[op, gs], callback_state=cs))
-            if m.nested is None:
+            if m.nested is None and pend:
+                impl = "%s %s wr=%s ww=%s" % (st(m), res, optb(m.wantsReadEvent()), optb(m.wantsWriteEvent()))
+                ps = ",".join(x if isinstance(x, str) else "y%d" % x for x in pend)
+                P.add("asmdrain %s %s" % (gs, ps), "asyncstatemachine:read-ahead-drain", dict(case, at=[op, gs], pending=ps), impl)
+                m.tlsConnection.pending = []
+            elif m.nested is None:
                 impl = "%s %s wr=%s ww=%s%s" % (st(m), res, optb(m.wantsReadEvent()), optb(m.wantsWriteEvent()),
                                               (" cb=" + m.cb_states[-1]) if m.cb_states else "")
                 P.add("asm %s %s" % (op, gs), "asyncstatemachine", dict(case, at=[op, gs]), impl)
